@@ -391,6 +391,9 @@ func (n *PathSelectorNode) Field(fieldName string) (PathNode, bool, error) {
 }
 
 func (n *PathSelectorNode) Get(src, dst reflect.Value) error {
+	if !src.IsValid() {
+		return fmt.Errorf("failed to get %s value from nil", n.selector)
+	}
 	switch src.Type().Kind() {
 	case reflect.Map:
 		iter := src.MapRange()
@@ -467,6 +470,9 @@ func (n *PathIndexNode) Field(fieldName string) (PathNode, bool, error) {
 }
 
 func (n *PathIndexNode) Get(src, dst reflect.Value) error {
+	if !src.IsValid() {
+		return fmt.Errorf("failed to get [%d] value from nil", n.selector)
+	}
 	switch src.Type().Kind() {
 	case reflect.Array, reflect.Slice:
 		if src.Len() > n.selector {
@@ -510,6 +516,9 @@ func (n *PathIndexAllNode) Field(fieldName string) (PathNode, bool, error) {
 }
 
 func (n *PathIndexAllNode) Get(src, dst reflect.Value) error {
+	if !src.IsValid() {
+		return fmt.Errorf("failed to get all value from nil")
+	}
 	switch src.Type().Kind() {
 	case reflect.Array, reflect.Slice:
 		var arr []interface{}
@@ -574,6 +583,9 @@ func (n *PathRecursiveNode) Index(_ int) (PathNode, bool, error) {
 }
 
 func valueToSliceValue(v interface{}) []interface{} {
+	if v == nil {
+		return []interface{}{v}
+	}
 	rv := reflect.ValueOf(v)
 	ret := []interface{}{}
 	if rv.Type().Kind() == reflect.Slice || rv.Type().Kind() == reflect.Array {
@@ -588,6 +600,9 @@ func valueToSliceValue(v interface{}) []interface{} {
 func (n *PathRecursiveNode) Get(src, dst reflect.Value) error {
 	if n.child == nil {
 		return fmt.Errorf("failed to get by recursive path ..%s", n.selector)
+	}
+	if !src.IsValid() {
+		return fmt.Errorf("failed to get %s value from nil", n.selector)
 	}
 	var arr []interface{}
 	switch src.Type().Kind() {
